@@ -61,6 +61,7 @@ func mi5gs(b []byte) *nasType.MobileIdentity5GS {
 }
 
 func c12PlmnExec(c *core.Ctx, in c12Plmn) {
+	c.Distinct(core.Hash64("plmn", in.Mcc, in.Mnc), in.Mcc != "000" || (in.Mnc != "00" && in.Mnc != "000"))
 	want := refconv.PlmnOctets(in.Mcc, in.Mnc)
 	var got []byte
 	var txt string
@@ -114,6 +115,7 @@ func c12PlmnSeqExec(c *core.Ctx, in c12PlmnSeq) {
 }
 
 func c12AmfExec(c *core.Ctx, in c12Amf) {
+	c.Distinct(core.Hash64("amf", in.ID), in.ID&0x3F != 0 && in.ID>>6&0x3FF != 0)
 	txt := refconv.AmfIDText(in.ID)
 	r, s, p := refconv.AmfIDSplit(in.ID)
 	var gr, gp uint8
@@ -139,6 +141,7 @@ func c12AmfExec(c *core.Ctx, in c12Amf) {
 }
 
 func c12GutiExec(c *core.Ctx, in c12Guti) {
+	c.Distinct(core.Hash64("guti", in.Mcc, in.Mnc, in.Amf, in.Tmsi), in.Tmsi != 0)
 	txt := refconv.GutiText(in.Mcc, in.Mnc, in.Amf, in.Tmsi)
 	wire := refconv.GutiOctets(in.Mcc, in.Mnc, in.Amf, in.Tmsi)
 	fail := func(k, w string) { c.FailCase("guti|"+k, w, "guti", in) }
@@ -211,6 +214,7 @@ func c12GutiExec(c *core.Ctx, in c12Guti) {
 }
 
 func c12SuciExec(c *core.Ctx, in c12Suci) {
+	c.Distinct(core.Hash64("suci", in.Mcc, in.Mnc, in.Routing, in.Scheme, in.HnKey, in.Msin, in.Output, in.Nai), true)
 	fail := func(k, w string) { c.FailCase("suci|"+k, w, "suci", in) }
 	var wire []byte
 	var txt, plmn string
@@ -252,6 +256,7 @@ func c12SuciExec(c *core.Ctx, in c12Suci) {
 }
 
 func c12PeiExec(c *core.Ctx, in c12Pei) {
+	c.Distinct(core.Hash64("pei", in.Digits, in.Sv), true)
 	wire := refconv.PeiOctets(in.Digits, in.Sv)
 	txt := refconv.PeiText(in.Digits, in.Sv)
 	var got, mg string
@@ -278,6 +283,7 @@ func c12PeiExec(c *core.Ctx, in c12Pei) {
 }
 
 func c12TextExec(c *core.Ctx, in c12Text) {
+	c.Distinct(core.Hash64("text", in.Fn, in.Text), true)
 	var err error
 	pi := core.Try(func() {
 		switch in.Fn {
@@ -543,6 +549,6 @@ func init() {
 			return "complete enumeration where the domain is small (all 1000 MCC x all 2- and 3-digit MNC; all 2^24 AMF identifiers in both directions; all routing indicators of 1..4 digits) and structured alphabets elsewhere (5G-GUTI: PLMN alphabet with all single-digit variations x AMF ids incl. every single-bit id x TMSIs with every octet through all 256 values; SUCI schemes/key ids/MSIN lengths 1..10 with every digit at every position; IMEI/IMEISV every digit at every position; <=1 mutation of valid texts for the error half). Oracle: reference coders written from TS 24.501 9.11.3.4 / TS 24.008 10.5.1.3 / TS 23.003 (refconv); nasConvert and the nasType.MobileIdentity5GS text getters must both agree with it; round trips text->wire->text and wire->text->wire."
 		},
 		Assumptions: []string{"TMSI/MSIN/IMEI value spaces are covered by per-position alphabets, not completely", "canonical text is lower-case hex"},
-		Finish:      func(m *core.Merged, cov map[string]any) { cov["distinct_nontrivial"] = m.Counters["evaluations"] },
+		Finish:      finishDistinct("distinct by identity kind and all its fields; non-trivial = the identity is not degenerate (PLMN not all zero, AMF id with non-zero set and pointer parts, TMSI non-zero; SUCI / PEI / text cases always)"),
 	})
 }
